@@ -578,6 +578,70 @@ def rule_account_first(ctx):
     ctx.floor(rid + ".functions", 4)
 
 
+def rule_limit_commit(ctx):
+    """the remembered limit changes only after the tracker accepted the change"""
+    from ..mirutil import alias_closure
+    rid = "R-LIMIT-COMMIT"
+    ctx.rule(rid, "the `image` integration remembers the limit it last gave the tracker (JxlDecoder.current_memory_limit) and turns a new "
+                  "limit into a delta against it.  AllocTracker::shrink_limit can refuse; the remembered value may then not have "
+                  "changed.  In every function that calls shrink_limit: no store into, and no mutable borrow of, a field of `self` "
+                  "that the delta is computed from can be followed by the shrink_limit call (the update comes after the `?`).  "
+                  "Otherwise a refused limit is remembered as in force and the next delta is computed from the wrong base - a limit "
+                  "far below what is allocated is then accepted and not enforced")
+    ox = ctx.prog.crate("jxl_oxide")
+    n = 0
+    for f in ox.fn_list:
+        if f.kind == "Promoted":
+            continue
+        shr = [b for b, t in f.calls() if callee(t) and callee(t)["fn"].endswith("AllocTracker::shrink_limit")]
+        if not shr:
+            continue
+        ctx.seen(f)
+        n += 1
+        # fields of self that feed the delta: loads whose value reaches an argument of shrink_limit / expand_limit
+        fields = set()
+        for blk in f.blocks:
+            if blk[2]:
+                continue
+            for st in blk[0]:
+                if st[0] == "=" and st[2][0] == "use":
+                    p = op_place(st[2][1])
+                    if p is not None and p[0] == 1 and len(p) > 1:
+                        fl = [e for e in p[1:] if isinstance(e, list) and e[0] == "." and e[2]]
+                        if fl and f.local_ty(st[1][0]) in ("usize", "u64", "u32"):
+                            fields.add(fl[-1][2])
+        bad = None
+        for b, blk in enumerate(f.blocks):
+            if blk[2]:
+                continue
+            for st in blk[0]:
+                if st[0] != "=":
+                    continue
+                tgt = None
+                if len(st[1]) > 1 and st[1][0] == 1:
+                    fl = [e for e in st[1][1:] if isinstance(e, list) and e[0] == "." and e[2]]
+                    tgt = fl[-1][2] if fl else None
+                elif st[2][0] == "ref" and st[2][1] not in ("shared", "fake") and st[2][2][0] == 1:
+                    fl = [e for e in st[2][2][1:] if isinstance(e, list) and e[0] == "." and e[2]]
+                    tgt = fl[-1][2] if fl else None
+                if tgt is None:
+                    continue
+                # integer fields only (the remembered limit), judged by the stored / borrowed place's type
+                tyok = tgt in fields
+                if not tyok and st[2][0] == "ref":
+                    tyok = f.local_ty(st[1][0]).replace("&mut ", "") in ("usize", "u64", "u32")
+                if tyok and any(s_ in f.reachable(b) and s_ != b for s_ in shr):
+                    bad = (tgt, st)
+        if bad:
+            ctx.bad(rid, "%s|committed-before-shrink:%s" % (f.path, bad[0]), "`%s` is written before the fallible AllocTracker::shrink_limit call: "
+                    "when the tracker refuses, the decoder remembers a limit that is not in force" % bad[0], fn=f, pos=bad[1][3])
+        else:
+            ctx.ok(rid, "%s|commit-after-shrink" % f.path, "fields feeding the delta are only updated after shrink_limit returned", nontrivial=True, fn=f)
+    ctx.count(rid + ".functions", n)
+    if "workspace" in str(getattr(ctx, "config", "workspace")):
+        ctx.floor(rid + ".functions", 1)
+
+
 def rule_oom_drop(ctx):
     """an exhausted budget is never swallowed"""
     from ..mirutil import local_uses
@@ -649,6 +713,7 @@ def main(pid, tier, repo=None):
         rule_oom(ctx)
         rule_account_first(ctx)
         rule_oom_drop(ctx)
+        rule_limit_commit(ctx)
         # exhaustion must surface as an error also when it happens in one of several parallel tasks: the shared result slot is monotone
         from . import c07
         c07.rule_errslot(ctx)
